@@ -162,7 +162,7 @@ Ty(t) ==
            IF ta.kind = "lin" \/ op = "neg"
            THEN [ta EXCEPT !.norm = IF ta.norm = "no" THEN "no" ELSE "amb"]
            ELSE ta
-    [] op = "restr"     -> LET ta == Ty(a[1]) IN
+    [] op \in {"restr", "rrestr"} -> LET ta == Ty(a[1]) IN
                            [n |-> ta.n - 1, d |-> ta.d, kind |-> "gen",
                             norm |-> IF ta.norm = "no" THEN "no" ELSE "amb"]
     [] op = "lrestr"    -> LET ta == Ty(a[1]) IN
@@ -282,7 +282,8 @@ RuleTaylor2(e, p, x) ==                  \* p = xhat \o H (symmetric, row-major)
    j |-> << VAdd(e.j[1], Hdx) >>]
 
 RuleNeg(e) == [v |-> VNeg(e.v), j |-> MNeg(e.j)]
-(* restriction: p = <<frozen index (0-based), frozen value>>; e = f at the completed point *)
+(* restriction (FunctionRestriction "restr", RestrictedFunction "rrestr", MDOLinearFunction.restrict *)
+(* "lrestr"): p = <<frozen index (0-based), frozen value>>; e = f at the completed point         *)
 RuleRestr(e, p) == [v |-> e.v, j |-> [r \in 1..Len(e.j) |-> DropCol(e.j[r], p[1] + 1)]]
 (* x |-> f(Ax): value f(Ax), Jacobian f'(Ax) A; e = f at Ax *)
 RuleLinComp(e, A) == [v |-> e.v, j |-> MatMul(e.j, A)]
@@ -304,7 +305,7 @@ E(t, x) ==
     [] op \in FCOps -> RuleFC(op, E(a[1], x), p)
     [] op \in FAOps -> RuleFA(op, E(a[1], x), p)
     [] op = "neg" -> RuleNeg(E(a[1], x))
-    [] op \in {"restr", "lrestr"} -> RuleRestr(E(a[1], Insert(x, p[1] + 1, DI(p[2]))), p)
+    [] op \in {"restr", "rrestr", "lrestr"} -> RuleRestr(E(a[1], Insert(x, p[1] + 1, DI(p[2]))), p)
     [] op = "lincomp" -> RuleLinComp(E(a[1], MatVec(DM(MatOfPar(p)), x)), DM(MatOfPar(p)))
     [] op = "concat" -> RuleConcat(E(a[1], x), E(a[2], x))
     [] op = "normalize" -> RuleNormalize(E(a[1], NormPoint(p, x)), p, Len(x))
@@ -316,7 +317,7 @@ E(t, x) ==
 (* The point at which the k-th subtree of t is observed when t is evaluated at x. *)
 ChildPoint(t, k, x) ==
   LET op == t[1]  p == t[3] IN
-  CASE op \in {"restr", "lrestr"} -> Insert(x, p[1] + 1, DI(p[2]))
+  CASE op \in {"restr", "rrestr", "lrestr"} -> Insert(x, p[1] + 1, DI(p[2]))
     [] op = "lincomp"   -> MatVec(DM(MatOfPar(p)), x)
     [] op = "normalize" -> [i \in 1..Len(x) |-> DAdd(DI(p[i]), DMul(DI(p[Len(x) + i]), x[i]))]
     [] OTHER -> x
@@ -340,13 +341,26 @@ Adm(t, x) ==
                            \E i \in 1..k : \A l \in 1..k : l = i \/ DLess(e.v[sel[l]], e.v[sel[i]])
        [] OTHER -> TRUE
 
-(* Observations of every proper subtree: <<path, point, value, Jacobian>>, post-order. *)
+(* The points at which the k-th subtree of t is evaluated when t is built and evaluated  *)
+(* at x: the observation point, plus the expansion point of the Taylor polynomials and    *)
+(* the expansion and merged points of the convex linearisation.                           *)
+ChildPoints(t, k, x) ==
+  LET op == t[1]  p == t[3]  n == Len(x) IN
+  CASE op \in {"taylor1", "taylor2"} -> <<x, DV(SubSeqOf(p, 1, n))>>
+    [] op = "cvx" -> <<x, DV(SubSeqOf(p, 1, n)), ConvexMerged(p, n, x)>>
+    [] OTHER -> <<ChildPoint(t, k, x)>>
+
+RECURSIVE Flat(_)
+Flat(ss) == IF Len(ss) = 0 THEN <<>> ELSE ss[1] \o Flat(Tail(ss))
+
+(* Observations of every proper subtree at every such point:                              *)
+(* <<path, point, value, Jacobian>>, post-order.                                          *)
 RECURSIVE Obs(_, _, _)
 Obs(t, x, path) ==
   LET a == t[2]
-      One(k) == LET cp == ChildPoint(t, k, x)  e == E(a[k], cp) IN
-                Obs(a[k], cp, Append(path, k)) \o << <<Append(path, k), cp, e.v, e.j>> >> IN
-  IF Len(a) = 0 THEN <<>> ELSE IF Len(a) = 1 THEN One(1) ELSE One(1) \o One(2)
+      At(k, q) == Obs(a[k], q, Append(path, k)) \o << <<Append(path, k), q, E(a[k], q).v, E(a[k], q).j>> >>
+      One(k) == LET qs == ChildPoints(t, k, x) IN Flat([i \in 1..Len(qs) |-> At(k, qs[i])]) IN
+  Flat([k \in 1..Len(a) |-> One(k)])
 
 -----------------------------------------------------------------------------
 (* Enumeration of well-typed trees.                                        *)
@@ -385,7 +399,7 @@ UnaryExt(a) ==
   {Un("neg", a, <<>>)}
   \cup {Un(o, a, <<c>>) : o \in FCOps, c \in Consts}
   \cup (IF ty.d >= 2 THEN {Un(o, a, ArrOf(ty.d)) : o \in FAOps} ELSE {})
-  \cup (IF ty.n >= 2 THEN {Un("restr", a, q) : q \in RestrPars(ty.n)} ELSE {})
+  \cup (IF ty.n >= 2 THEN {Un(o, a, q) : o \in {"restr", "rrestr"}, q \in RestrPars(ty.n)} ELSE {})
   \cup (IF ty.n >= 2 /\ ty.kind = "lin" THEN {Un("lrestr", a, q) : q \in RestrPars(ty.n)} ELSE {})
   \cup {Un("lincomp", a, M) : M \in MatsFor(ty.n)}
   \cup (IF ty.kind = "lin" /\ ty.norm = "no" THEN {Un("normalize", a, Space(ty.n))} ELSE {})
@@ -410,7 +424,7 @@ Ext(S) == UNION {UnaryExt(a) : a \in S}
           \cup UNION {BinExt(a, b) \cup BinExt(b, a) : a \in S, b \in Partners}
 
 OpNames == <<"s", "v", "u", "Ls", "L", "Lu", "Q", "add", "sub", "mul", "div", "addc", "subc", "mulc",
-             "divc", "offc", "adda", "suba", "mula", "diva", "offa", "neg", "restr", "lrestr", "lincomp",
+             "divc", "offc", "adda", "suba", "mula", "diva", "offa", "neg", "restr", "rrestr", "lrestr", "lincomp",
              "concat", "normalize", "taylor1", "taylor2", "cvx", "aggmax", "aggsq", "aggpos">>
 OpIdx(o) == CHOOSE i \in 1..Len(OpNames) : OpNames[i] = o
 RECURSIVE SumInts(_)
